@@ -1,9 +1,10 @@
 use crate::engine::PropDef;
 
+pub mod c01;
 pub mod c10;
 pub mod c19;
 pub mod c20;
 
 pub fn all() -> Vec<PropDef> {
-    vec![c10::def(), c19::def(), c20::def()]
+    vec![c01::def(), c10::def(), c19::def(), c20::def()]
 }
